@@ -143,7 +143,7 @@ func C01(c *vh.Ctx) {
 	c.Bound("S1_pattern_nodes_max", pmax)
 	c.Bound("S1_message_nodes_max", mmax)
 	c.Rule("S1: every (pattern,message,bindings) with |P|<=bound, |M|<=bound over atoms {1,2,\"a\",true,null}, keys {a,b}, variables " + fmt.Sprint(c01Vars) +
-		", bindings = {} / each variable x value list / each pair x short list. S2 (pattern-directed): every pattern with variables up to a larger bound over a two-letter alphabet (incl. inequality variables), every assignment of planted values / inequality bounds, messages = the instantiated pattern plus every combination of up to k edits (insertions of extra keys/elements incl. near-copies, atom changes, dropped keys, dropped or duplicated array elements), bindings = the inequality bounds plus nothing / each variable pre-bound to its planted value, to generalisations of it, or to conflicting values; the unedited core also wrapped 1-4 levels deep. S3 (wide arrays): pattern arrays of 2-5 structured elements with distinct variables (maps, arrays, mixed; with and without an array variable; bare and under a key) against message arrays with as many or one more ambiguous elements. S5 (bound arrays): a variable given, or bound earlier in the same match, to a value holding an array of 2-3 members (scalars, maps, arrays, repeated members), against message arrays with fewer members that cover several of them. S7 (operator-like names): variables named ?!n ?=n ?<>n ?=<n ?>>n ?< ?!= ?!<n ?<=n in patterns of up to 3 nodes, with every binding of bindingsFor, against messages of up to 3 nodes. S6 (Go-typed numbers): every small pair that contains a number, and bound variables / inequality bounds, with the numbers of the message, the pattern, the bindings or all of them typed int, int64, int32 or float32: no result beyond those of the float64 rendering. S4 (look-alikes): scalars of different JSON types that print alike (1 / \"1\", true / \"true\", null / \"null\", 0 / false / \"\") as array members, map values, property-variable values and bound values. Enumeration is an odometer (duplicate-free); non-trivial = Match returned >=1 binding set for a pattern that has variables.")
+		", bindings = {} / each variable x value list / each pair x short list. S2 (pattern-directed): every pattern with variables up to a larger bound over a two-letter alphabet (incl. inequality variables), every assignment of planted values / inequality bounds, messages = the instantiated pattern plus every combination of up to k edits (insertions of extra keys/elements incl. near-copies, atom changes, dropped keys, dropped or duplicated array elements), bindings = the inequality bounds plus nothing / each variable pre-bound to its planted value, to generalisations of it, or to conflicting values; the unedited core also wrapped 1-4 levels deep. S3 (wide arrays): pattern arrays of 2-5 structured elements with distinct variables (maps, arrays, mixed; with and without an array variable; bare and under a key) against message arrays with as many or one more ambiguous elements. S5 (bound arrays): a variable given, or bound earlier in the same match, to a value holding an array of 2-3 members (scalars, maps, arrays, repeated members), against message arrays with fewer members that cover several of them. S7 (operator-like names): variables named ?!n ?=n ?<>n ?=<n ?>>n ?< ?!= ?!<n ?<=n in patterns of up to 3 nodes, with every binding of bindingsFor, against messages of up to 3 nodes. S6 (Go-typed numbers): every small pair that contains a number, and bound variables / inequality bounds, with the numbers of the message, the pattern, the bindings or all of them typed int, int64, int32 or float32: no result beyond those of the float64 rendering. S8: nulls and constant strings that contain question marks without being variables (\"a?\", \"a??\") as pattern constants and message values under keys that are present, absent or null. S9: map patterns in which two or three properties each admit several candidates. S4 (look-alikes): scalars of different JSON types that print alike (1 / \"1\", true / \"true\", null / \"null\", 0 / false / \"\") as array members, map values, property-variable values and bound values. Enumeration is an odometer (duplicate-free); non-trivial = Match returned >=1 binding set for a pattern that has variables.")
 	pats := ps.UpTo(pmax)
 	msgs := ms.UpTo(mmax)
 	if c.Shard == 0 {
@@ -187,6 +187,13 @@ func C01(c *vh.Ctx) {
 					c.Count("S7_evaluations", 1)
 				}
 			}
+		}
+	}
+	// S8: nulls and constant strings that contain question marks; S9: several set-valued properties
+	for i, cs := range append(qmCases(), multiSetCases()...) {
+		if c.Mine(uint64(i)) {
+			soundOne(c, cs, true)
+			c.Count("S8_S9_evaluations", 1)
 		}
 	}
 	// S6: numbers typed as a Go host types them
